@@ -92,11 +92,48 @@ class ModuleInfo:
         return f"<module {self.name}>"
 
 
+class _FuncTable(dict):
+    """qualname -> FuncInfo.  A lookup of `module.name` that is not a definition of that module falls back to the NAME in
+    the module's namespace: a function that was moved to another module and imported back is found under its old
+    address (iteration still yields every definition exactly once, under the qualname of where it lives)."""
+
+    def __init__(self, program):
+        super().__init__()
+        self._P = program
+
+    def _resolve(self, q):
+        if isinstance(q, str) and "." in q:
+            modname, name = q.rsplit(".", 1)
+            if modname in self._P.modules:
+                try:
+                    r = self._P.resolve_attr_of_module(modname, name)
+                except Exception:  # noqa: BLE001
+                    return None
+                if isinstance(r, FuncInfo):
+                    return r
+        return None
+
+    def __contains__(self, q):
+        return dict.__contains__(self, q) or self._resolve(q) is not None
+
+    def __missing__(self, q):
+        r = self._resolve(q)
+        if r is None:
+            raise KeyError(q)
+        return r
+
+    def get(self, q, default=None):
+        if dict.__contains__(self, q):
+            return dict.__getitem__(self, q)
+        r = self._resolve(q)
+        return r if r is not None else default
+
+
 class Program:
     def __init__(self, repo):
         self.repo = os.path.abspath(repo)
         self.modules: dict[str, ModuleInfo] = {}
-        self.functions: dict[str, FuncInfo] = {}
+        self.functions: dict[str, FuncInfo] = _FuncTable(self)
         self.classes: dict[str, ClassInfo] = {}
         self.digest = ""
         self._load()
@@ -352,12 +389,26 @@ class Program:
     # ------------------------------------------------------------- utilities
     def func(self, qualname) -> FuncInfo:
         f = self.functions.get(qualname)
+        if f is None and "." in qualname:
+            # the function may have moved to another module and be imported back under its name: the anchor is the NAME
+            # in that module's namespace, wherever the definition lives
+            modname, name = qualname.rsplit(".", 1)
+            if modname in self.modules:
+                r = self.resolve_attr_of_module(modname, name)
+                if isinstance(r, FuncInfo):
+                    return r
         if f is None:
             raise Undecided(f"anchor function {qualname} not found")
         return f
 
     def cls(self, qualname) -> ClassInfo:
         c = self.classes.get(qualname)
+        if c is None and "." in qualname:
+            modname, name = qualname.rsplit(".", 1)
+            if modname in self.modules:
+                r = self.resolve_attr_of_module(modname, name)
+                if isinstance(r, ClassInfo):
+                    return r
         if c is None:
             raise Undecided(f"anchor class {qualname} not found")
         return c
